@@ -50,7 +50,9 @@ let parse_params (kvs : string list) : cparams =
   { p_cap = nat_of_int cap;
     p_new = (geti "new" 0 = 1);
     p_iter = (geti "iter" 0 = 1);
-    p_lazy = (geti "lazy" 0 = 1);
+    p_lazy = (match get "ihint" with
+              | Some v -> Some (nat_of_int (int_of_string v))
+              | None -> if geti "lazy" 0 = 1 then Some (nat_of_int 0) else None);
     p_seed = (match get "seed" with Some v -> Some (z_of_u64_string v) | None -> None);
     p_hlo = nat_of_int (geti "hlo" 0);
     p_hhi = (match get "hhi" with Some "none" -> None | Some v -> Some (n_of_u64_string v) | None -> Some N0) }
